@@ -73,9 +73,29 @@ def _install(sim, market, a):
 
     def call():
         trig = build_trigger(a, do)
-        sim.strategy.triggers.append(trig)
+        if a.get("how") == "reassign":  # the strategy replaces its trigger list instead of appending in place
+            sim.strategy.triggers = sim.strategy.triggers + [trig]
+        else:
+            sim.strategy.triggers.append(trig)
         sim.trig_objs[tid] = trig
         return tid
+
+    return call
+
+
+@op("trig.remove")
+def _remove(sim, market, a):
+    """The strategy takes one of its triggers off its list (in place, or by assigning a new list)."""
+    obj = getattr(sim, "trig_objs", {}).get(a["id"])
+    if obj is None:
+        return None
+
+    def call():
+        if a.get("how") == "reassign":
+            sim.strategy.triggers = [t for t in sim.strategy.triggers if t is not obj]
+        else:
+            sim.strategy.triggers.remove(obj)
+        return a["id"]
 
     return call
 
@@ -295,9 +315,15 @@ def generate(seed: int, tier: str = "quick") -> dict:
         bar, phase = -1, "initialize"
         if kind not in ("period", "periods") and rp.random() < 0.12:
             bar, phase = rp.randint(0, nb - 1), "before_bar"  # installed while the run is under way
+        if rp.random() < 0.3:
+            spec["how"] = "reassign"
         program.append({"bar": bar, "phase": phase, "op": "trig.install", "m": None, "a": spec})
+        if rp.random() < 0.12:  # the strategy later takes it off its list again
+            rb = rp.randint(max(bar, 0), nb - 1)
+            ph = rp.choice(["before_bar", "on_bar", "after_bar"]) if rb > bar else "on_bar"
+            program.append({"bar": rb, "phase": ph, "op": "trig.remove", "m": None, "a": {"id": spec["id"], "how": rp.choice(["remove", "reassign"])}})
     program.sort(key=lambda o: o["bar"])
-    faults = sorted({ft for o in program for ft in features(o["a"], grid, k, max(o["bar"], 0))})
+    faults = sorted({ft for o in program if o["op"] == "trig.install" for ft in features(o["a"], grid, k, max(o["bar"], 0))})
     if grid[0] != start:
         faults.append("start_off_grid")
     return {"property": ID, "seed": seed, "world": world, "program": program, "faults": [{"kind": ft} for ft in faults]}
@@ -315,11 +341,23 @@ class TriggerOracle(Oracle):
         self.denoted = {}
         self.feats = {}
         self.retired_at = {}
+        self.removed_at = {}
         self.bars_seen = 0
         sim.trig_objs, sim.trig_calls = {}, {}
 
     # -- installation
     def after_op(self, sim, o, outcome):
+        if o["op"] == "trig.remove":
+            tid = o["a"]["id"]
+            if outcome["status"] == "ok" and tid in self.specs and tid not in self.removed_at:
+                # taken off by the strategy itself: evaluated for the last time in this bar if the bar's trigger
+                # evaluation (between before_bar and on_bar) was already over, else in the previous bar
+                b = self.grid[max(o["bar"], 0)]
+                keep = (lambda t: t <= b) if o["phase"] in ("on_bar", "after_bar") else (lambda t: t < b)
+                self.denoted[tid] = [t for t in self.denoted[tid] if keep(t)]
+                self.removed_at[tid] = o["bar"]
+                sim.count("fault:removed_by_strategy:" + str(o["a"].get("how", "remove")))
+            return
         if o["op"] != "trig.install":
             return
         spec = o["a"]
@@ -338,6 +376,8 @@ class TriggerOracle(Oracle):
         self.feats[tid] = features(spec, self.grid, self.k, fb)
         for ft in self.feats[tid]:
             sim.count("fault:" + ft)
+        if spec.get("how") == "reassign":
+            sim.count("fault:installed_by_list_reassignment" + (":mid_run" if o["bar"] >= 0 else ""))
 
     # -- retirement, observed after the loop's filter of every bar
     def phase(self, sim, bar, phase, pos):
@@ -348,7 +388,7 @@ class TriggerOracle(Oracle):
         self.bars_seen = bar + 1
         live = sim.strategy.triggers
         for tid, spec in self.specs.items():
-            if tid in self.retired_at:
+            if tid in self.retired_at or tid in self.removed_at:
                 continue
             obj = sim.trig_objs[tid]
             if any(x is obj for x in live):
@@ -424,6 +464,8 @@ class TriggerOracle(Oracle):
         """Name the part of the *specification* a wrong bar belongs to (never looks at the code under test)."""
         kind = spec["kind"]
         t0 = self.grid[self.first_bar[tid]]
+        if not missing and tid in self.removed_at and t >= self.grid[max(self.removed_at[tid], 0)]:
+            return "after_removal_by_strategy"
         if kind in ("at_time", "at_times"):
             return "listed_time" if missing else "time_not_listed"
         if kind in ("range", "ranges"):
@@ -538,7 +580,10 @@ ASSUMPTIONS = [
     "select the bars whose timestamp lies in [start, end)",
     "a time given with a seconds part denotes its minute (the constructors document that they set the seconds to 0; the bar clock has minute resolution); lists of times / ranges / periods are non-empty; periods are >= one bar",
     "T0 of a period trigger is the timestamp of the first bar of the run (period triggers are installed in initialize); "
-    "only time and range triggers are also installed mid-run, where bars before the installation are not denoted",
+    "only time and range triggers are also installed mid-run, where bars before the installation are not denoted; triggers are "
+    "installed by appending to strategy.triggers or by assigning a new list to it, and some are later taken off again by the "
+    "strategy (in place or by assignment, from before_bar / on_bar / after_bar): the bar's trigger evaluation lies between "
+    "before_bar and on_bar, so a trigger taken off in before_bar is last evaluated in the previous bar",
     "retirement is judged on the bars of the run only: a trigger may be dropped once none of its denoted bars inside the "
     "run is ahead; retiring later than necessary (or never) is allowed",
     "a run that dies inside a trigger's when/do/is_out_date is a violation only if some trigger thereby loses a denoted "
